@@ -55,6 +55,13 @@ func parseConf(t reflect.Type, data interface{}) (name string, fillConf func(con
 	if err != nil {
 		return
 	}
+	// Passed data should not be modified: it can be decoded many times, for example
+	// by plugin factory that decodes its config for every created plugin.
+	confDataCopy := make(map[string]interface{}, len(confData))
+	for key, val := range confData {
+		confDataCopy[key] = val
+	}
+	confData = confDataCopy
 	var names []string
 	for key, val := range confData {
 		if PluginNameKey == strings.ToLower(key) {
